@@ -68,7 +68,9 @@ def _build(seed: int) -> dict:
 
     # the inlined scripts carry backslash sequences (regex-template look-alikes: \\n \\1 \\g<0> \\d, CSS escapes): the
     # generated tags must reach every insertion point - placeholder or default location - byte for byte
-    A = mk("C08A", template="<p>a</p>", js="console.log('A');", css='.a{color:red;content:"\\201C \\\\"}')
+    # ... and the TEXT of end tags (legal inside a script / a style sheet; only `</script` / `</style` are refused): the default
+    # locations are those of the DOCUMENT, not of what was just inserted into it
+    A = mk("C08A", template="<p>a</p>", js="console.log('A </head> </body>');", css='.a{color:red;content:"\\201C \\\\ </head></body>"}')
     B = mk("C08B", template="<p>b</p>", js="console.log('B\\n\\1\\g<0>\\d');")
     P = mk("C08P", template="{% component_css_dependencies %}{% component_js_dependencies %}")
 
@@ -163,8 +165,9 @@ def _tags(mark_ids: tuple, rtype: str) -> tuple:
             raise par.HarnessError(f"marker tokens alone were not fully consumed: {rest!r}")
         if rtype == "document" and not js:
             raise par.HarnessError("document JS tags empty (core script expected)")
-        if _ITEM_RE.search((js + css).decode()):
-            raise par.HarnessError("generated tags contain a recognised item")
+        # (the TEXT of an end tag inside a generated tag is fine: positions are those of the document - the statement's reading)
+        if re.search(r"_RENDERED\s|PLACEHOLDER\"", (js + css).decode()):
+            raise par.HarnessError("generated tags contain a marker / placeholder look-alike")
         t = _STATE["tags"][key] = (js, css)
     return t
 
